@@ -47,7 +47,7 @@ def gen_case(ctx, rng, big=False):
     seed = rng.choice([0, 1, 3, 9])
     ops = []
     for _ in range(rng.randint(1, ctx.scale(8, 20))):
-        k = rng.choice(["set", "set", "get", "predict", "score"])
+        k = rng.choice(["set", "set", "get", "predict", "score", "failing_sweep"])
         if k == "set":
             v = rng.choice(H.INVALID_COUNTS + [nf + 1, nf + 7]) if rng.random() < 0.3 else rng.randint(1, nf)
             if isinstance(v, int) and v > 0 and rng.random() < (0.6 if big else 0.25):
@@ -146,6 +146,26 @@ def check_case(ctx, case, idx):
             hist_ops.append(op)
         elif op[0] == "get":
             model.get_selected_sensors(); model.get_all_sensors(); _ = model.selected_sensors
+        elif op[0] == "failing_sweep":
+            # read-only calls that end in an exception the caller catches (a scorer that refuses, a sweep past the sensors):
+            # they are not setters – the sensor count and the selection stay what the setters made them
+            class _Refuse(Exception):
+                pass
+
+            def refuse(*a, **k):
+                raise _Refuse()
+            for call in (lambda: model.reconstruction_error(X, score=refuse), lambda: model.score(X, score_function=refuse),
+                         lambda: model.reconstruction_error(X, sensor_range=[1, nf + 3])):
+                ns_before, sel_before = model.n_sensors, np.array(model.get_selected_sensors()).tolist()
+                try:
+                    call()
+                except Exception:
+                    pass
+                if model.n_sensors != ns_before or np.array(model.get_selected_sensors()).tolist() != sel_before:
+                    ctx.violation("concrete", f"a read-only call that ended in an exception changed n_sensors {ns_before} → {model.n_sensors} "
+                                              f"(selection {sel_before} → {np.array(model.get_selected_sensors()).tolist()})",
+                                  {"signature": "failed-read-only-call-changes-selection", "case": desc, "index": idx})
+                    return
         elif op[0] == "predict":
             try:
                 model.predict(X[:, model.get_selected_sensors()], **(op[1] if len(op) > 1 else {}))
